@@ -1,8 +1,8 @@
 (* pins for C20: statements of the property theorems as of the time of pinning *)
 From Coq Require Import NArith ZArith List Bool Arith.
 From Blue Require Import Gen.Const_Stall Lsm.Model Stall.Select Stall.Known Stall.Proto
-  Stall.ProofsBounds Stall.ProofsAdm Stall.ProofsNext Stall.ProofsTotal Stall.ProofsStall Stall.ProofsRelief Stall.ProofsProto Stall.ProofsMeasure Stall.ProofsProgress
-  Lsm.History Stall.EndToEnd.
+  Stall.ProofsBounds Stall.ProofsAdm Stall.ProofsNext Stall.ProofsTotal Stall.ProofsStall Stall.ProofsRelief Stall.ProofsProto Stall.ProofsMeasure Stall.ProofsProgress.
+From Blue Require Lsm.History Stall.EndToEnd.
 Import ListNotations.
 Open Scope N_scope.
 From Blue Require Import Stall.Props_C20.
@@ -25,5 +25,5 @@ Check C20_ingest_keeps_stall : forall o v f, v <> [] -> should_stall_ingest o v 
 Check C20_compaction_lowers_measure : forall o v og out c outs, sel_wfb v = true -> next_compaction o v og = Ok out -> nc_choice out = Some c -> (ec outs <= in_entries v (cc c))%nat -> (mu (apply_compaction v (cc c) outs) < mu v)%nat.
 Check C20_compaction_runs_are_bounded : forall o n v v', crun o n v v' -> (n + mu v' <= mu v)%nat.
 Check C20_tables_cover_levels : len level_curve_tbl = STALL_NUM_LEVELS /\ len level_factor_tbl = STALL_NUM_LEVELS.
-Check C20_selected_merge_preserves_reads : forall s o og out c outs, Inv s -> sel_wfb (ver s) = true -> next_compaction o (ver s) og = Ok out -> nc_choice out = Some c -> outputs_okb (ver s) (cc c) outs = true -> Inv (compact s (cc c) outs) /\ forall k t, load (compact s (cc c) outs) k t = load s k t.
-Check C20_selected_gc_preserves_visible_values : forall s o og out c outs, Inv s -> sel_wfb (ver s) = true -> next_compaction o (ver s) og = Ok out -> nc_choice out = Some c -> S (cupper (cc c)) = length (ver s) -> gc_outputs_okb (ver s) (cc c) outs = true -> Inv (compact s (cc c) outs) /\ forall k, get (compact s (cc c) outs) k = get s k.
+Check C20_selected_merge_preserves_reads : forall s o og out c outs, History.Inv s -> sel_wfb (ver s) = true -> next_compaction o (ver s) og = Ok out -> nc_choice out = Some c -> outputs_okb (ver s) (cc c) outs = true -> History.Inv (compact s (cc c) outs) /\ forall k t, load (compact s (cc c) outs) k t = load s k t.
+Check C20_selected_gc_preserves_visible_values : forall s o og out c outs, History.Inv s -> sel_wfb (ver s) = true -> next_compaction o (ver s) og = Ok out -> nc_choice out = Some c -> S (cupper (cc c)) = length (ver s) -> gc_outputs_okb (ver s) (cc c) outs = true -> History.Inv (compact s (cc c) outs) /\ forall k, get (compact s (cc c) outs) k = get s k.
